@@ -66,15 +66,41 @@ def run(ctx, chk):
         chk.ob('C16.V1', 'open:fail-row-present:%s' % f, f in seen_fail, m.body.where(0),
                'an error path for a failing %s %s' % (f, 'exists' if f in seen_fail else 'is MISSING'), nontrivial=False)
     chk.floor('C16.V1', 'Ok paths of open', len(ok_rows), 1)
+    # ---- V2 (flags): a client running as any user must be able to open a world-readable segment: the open is a plain
+    # read-only open; flags that add permission requirements or change which file is opened (O_NOATIME needs ownership
+    # or CAP_FOWNER, O_NOFOLLOW/O_DIRECTORY/O_PATH/O_DIRECT/O_EXCL/O_TRUNC/O_CREAT ...) are not accepted
+    O_ACCMODE, O_CLOEXEC = 0o3, 0o2000000
+    from .C02 import bits_of
+    seen_open = set()
+    for row in m.rows:
+        for ef in row['path'].effects:
+            if ef['kind'] == 'call' and not ef['tracing'] and ef['callee'].split('::')[-1] in ('open', 'openat', 'open64') and \
+                    not ef['callee'].startswith('std::') and len(ef['args']) >= 2 and ef['site'] not in seen_open:
+                seen_open.add(ef['site'])
+                fl = None
+                for a in ef['args'][1:3]:
+                    if fl is None:
+                        fl = bits_of(a)
+                extra = None if fl is None else fl & ~(O_ACCMODE | O_CLOEXEC)
+                chk.ob('C16.V2', 'open:flags-plain-read-only', fl is not None and (fl & O_ACCMODE) == 0 and not extra, ef['site'][2],
+                       'the client open uses flags %s%s' % (oct(fl) if fl is not None else fmt(ef['args'][1])[:40],
+                                                           '' if fl is None or not extra else ' -- extra bits %s (e.g. O_NOATIME 0o1000000 makes open(2) fail with EPERM '
+                                                           'for a client that does not own the file)' % oct(extra)))
+    chk.ob('C16.V2', 'open:open-call-found', bool(seen_open), m.body.where(0), 'open(2) call sites on the client open path: %d' % len(seen_open), nontrivial=False)
     # ---- V3 the record pointer is formed only after the size test passed
     for row in m.rows:
         if row['adds']:
             passed = [a for a, ok in row['atoms'] if a == 'segsize>=%d' % full and ok]
-            off = row['adds'][0]['args'][1]
-            chk.ob('C16.V3', 'open:record-pointer-after-size-test', bool(passed), row['adds'][0]['site'][2],
-                   'pointer advanced by %s bytes on a path where the header+record size test %s' % (fmt(off), 'passed' if passed else 'WAS NOT MADE'))
-            chk.ob('C16.V3', 'open:record-offset-is-header-size', arith.const_num(off) == H, row['adds'][0]['site'][2],
-                   'record pointer offset %s (header is %d bytes)' % (fmt(off), H))
+            # the advance that reaches the record: the largest one on the path (field pointers inside the header are smaller)
+            dists = [(common.ptr_advance_bytes(fb, e_), e_) for e_ in row['adds']]
+            known = [(d_, e_) for d_, e_ in dists if d_ is not None]
+            off, ef_ = max(known, key=lambda x: x[0]) if known else (None, row['adds'][0])
+            if off is not None and off < H and all(d_ is not None for d_, _ in dists):
+                continue            # only pointers into the header are formed on this path
+            chk.ob('C16.V3', 'open:record-pointer-after-size-test', bool(passed), ef_['site'][2],
+                   'pointer advanced by %s bytes on a path where the header+record size test %s' % (off, 'passed' if passed else 'WAS NOT MADE'))
+            chk.ob('C16.V3', 'open:record-offset-is-header-size', off == H, ef_['site'][2],
+                   'record pointer offset %s (header is %d bytes)' % (off, H))
     # ---- magic constant
     magic = fb.const('::SHM_MAGIC')
     if magic and 'bytes' in magic:
@@ -121,3 +147,22 @@ def run(ctx, chk):
                'wipe declares size %s; mapped segment = %s; header + record rounded = %s; mapped length on this path = %s' % (vals[2], seg_val, info['segsize_arg'], info['map_len']))
     if sm.ok:
         C04.check_new(fb, chk, rule_prefix='C16.V4', m=sm)
+        # clients run as other users: whatever explicit permission bits the daemon's start-up applies to the segment file
+        # must leave it readable by others (no explicit mode at all = the process umask decides, as today)
+        from .C02 import bits_of as _bits
+        seen_mode = set()
+        for sp in sm.paths:
+            for n, ef in sp.calls:
+                last = ef['callee'].split('::')[-1]
+                if ef['site'] in seen_mode:
+                    continue
+                if last in ('mode', 'set_mode', 'from_mode', 'fchmod', 'chmod', 'umask', 'fchmodat') and 'nix::sys::stat::Mode' not in ef['callee']:
+                    seen_mode.add(ef['site'])
+                    m_ = None
+                    for a in ef['args'][::-1]:
+                        if m_ is None:
+                            m_ = _bits(a)
+                    okm = m_ is not None and ((m_ & 0o004) != 0 if last != 'umask' else (m_ & 0o004) == 0)
+                    chk.ob('C16.V4', 'repair:file-mode-keeps-others-readable', okm, ef['site'][2],
+                           '%s(%s) on the start-up path of the daemon%s' % (ef['callee'], oct(m_) if m_ is not None else '?',
+                                                                           '' if okm else ' -- clients running as other users can no longer open the segment'))
